@@ -36,8 +36,8 @@ def maskMsg : J → J
 
 def showReply : Option Reply → String
   | none => "-"
-  | some (.single p) => showJ (maskMsg p)
-  | some (.batch ps) => showJ (.arr (ps.map maskMsg))
+  | some (.single p) => showJ (canonMsg (maskMsg p))
+  | some (.batch ps) => showJ (.arr (ps.map fun p => canonMsg (maskMsg p)))
 
 def showExc : Exc → String
   | .py e => "PY " ++ e.name
